@@ -49,6 +49,7 @@ fn shape_title(rng: &mut Rng, lang: &str, corpus: &[Rec]) -> String {
             }
             t
         }
+        3 if rng.chance(1, 3) => gen::long_title(rng, lang),
         _ => gen::realistic_title(rng, lang, corpus),
     }
 }
